@@ -512,6 +512,34 @@ func c05Listener(c *Ctx, driver *Func, dialogueCall, walkCall *ast.CallExpr) {
 		c.ob("C05.R2", driver.Name+"/record-tested", w.Pos(driver.Decl.Pos()), false, "the listener's record is never tested: recorded syntax errors do not become an error")
 		return
 	}
+	// the record only grows: nothing in the driver assigns to the listener (or to a field of it) after it was created — the
+	// lexer's token recognition errors are reported once, when the token is produced, and a second parse over the same
+	// token stream does not repeat them
+	if listenerVar != nil {
+		cleared := ""
+		var clearedPos token.Pos
+		ast.Inspect(driver.Body, func(q ast.Node) bool {
+			as, ok := q.(*ast.AssignStmt)
+			if !ok {
+				return true
+			}
+			for _, l := range as.Lhs {
+				root := identOfRoot(stripIndexes(l))
+				if root == nil || info.Uses[root] != types.Object(listenerVar) {
+					continue
+				}
+				if cleared == "" {
+					cleared, clearedPos = exprStr(l), l.Pos()
+				}
+			}
+			return true
+		})
+		if cleared != "" {
+			c.ob("C05.R2", driver.Name+"/record-never-cleared", w.Pos(clearedPos), false, "the driver assigns to "+cleared+" after the listener was created: syntax errors recorded so far (the lexer's token recognition errors are reported only once, while the tokens are produced) are dropped, and a script with an unrecognised character can load silently")
+		} else {
+			c.obN("C05.R2", driver.Name+"/record-never-cleared", w.Pos(driver.Decl.Pos()), true, "the driver never assigns to the listener or its record after creating it", false)
+		}
+	}
 	e := w.ent(driver)
 	// polarity: the test is "recorded something"
 	recorded := func(k keyCtx) Formula {
